@@ -12,21 +12,25 @@ From Shoot Require Import Model.Fail Proofs.FailProofs.
 Import ListNotations.
 Local Open Scope string_scope.
 
-(* Every stop in the phases before the first write - flag errors, every
-   logx.Fatal of LoadPackage and of the four analyses, template/gofmt errors, but
-   also a panic or an unbounded recursion - leaves the directory and the effect
-   log exactly as they were: for every input, map order and fault oracle. *)
-Theorem C18_stop_before_write_changes_nothing : forall sigma io i s,
+(* STRUCTURAL (holds by the shape of the model, not a result about the code): [analyse] takes no
+   world argument, so a stop in parse_flags / load_package / generate leaves the directory and the
+   effect log as they were by construction.  That LoadPackage (`go list`) and Generate write
+   nothing into the package directory is an ASSUMPTION of the model; it is tied to the binary only
+   by the recursive directory hash of the correspondence run. *)
+Theorem C18_structural_stop_before_write_changes_nothing : forall sigma io i s,
   analyse i = Stop s -> run sigma io i = (s, world0 i).
 Proof. exact run_analyse_stop. Qed.
-Print Assumptions C18_stop_before_write_changes_nothing.
+Print Assumptions C18_structural_stop_before_write_changes_nothing.
 
-(* If no system call fails and every foreign entry of the package directory is a
-   regular file, a run that does not end with exit status 0 has changed nothing.
-   (The two hypotheses are exactly what the open findings K_rename_fail_after_write
-   and K_clean_unreadable_after_write violate; see the refutations below.) *)
+(* The sentence "when it exits non-zero it has not created, modified or deleted any file" for the
+   write and cleanup phases: if no system call fails, sigma delivers names of the map it iterates,
+   and no directory entry is an obstacle - [state_ok]: no directory sits at the name of an output
+   and, when the all-in-one cleanup runs, every entry matching *.shoot<cmd>*.go is a regular file
+   (decided from the result of the read-only phases) - then a run that does not end with exit
+   status 0 has changed nothing.  The guard is exactly what the open findings
+   K_rename_fail_after_write and K_clean_unreadable_after_write violate (refutations below). *)
 Theorem C18_nonzero_exit_changes_nothing : forall sigma io i s w,
-  all_ok io -> files_only (i_extra i) = true ->
+  all_ok io -> selects sigma -> state_ok i = true ->
   run sigma io i = (s, w) ->
   (forall d, s = Exit d -> exit_code d <> 0) ->
   w = world0 i.
@@ -36,18 +40,28 @@ Print Assumptions C18_nonzero_exit_changes_nothing.
 (* Under the same hypotheses the run ends with "go generate successfully",
    with "nothing generated", or it stopped in the read-only phases. *)
 Theorem C18_run_cases : forall sigma io i,
-  all_ok io -> files_only (i_extra i) = true ->
+  all_ok io -> selects sigma -> state_ok i = true ->
   (exists w, run sigma io i = (Exit DSuccess, w)) \/ (exists w, run sigma io i = (Exit DNothing, w)) \/
   (exists s, analyse i = Stop s /\ run sigma io i = (s, world0 i)).
 Proof. exact run_cases. Qed.
 Print Assumptions C18_run_cases.
 
-(* Classification: on every input whose embedding relation is well founded (for
-   the package and for every destination package) a run ends in a deliberate
-   exit - never a Go panic, never an unbounded recursion - for every command
-   line, directory state, map order and fault oracle.  The only guard left is
-   the one of the two open non-termination findings K_ctor_self_embed and
-   K_map_self_embed... *)
+(* a directory that holds regular files only satisfies the guard *)
+Theorem C18_regular_files_are_no_obstacle : forall i, files_only (i_extra i) = true -> state_ok i = true.
+Proof. exact files_only_state_ok. Qed.
+Print Assumptions C18_regular_files_are_no_obstacle.
+
+(* Classification: on every input whose embedding relation is well founded (through the package,
+   the destination packages and the imported packages whose types are embedded) a run ends in a
+   deliberate exit, for every command line, directory state, map order and fault oracle:
+   - no unbounded recursion (the guard is the one of the open findings K_ctor_self_embed and
+     K_map_self_embed, incl. their generic and imported forms);
+   - none of the index expressions and pointer dereferences of the TRANSCRIBED functions (the
+     constructors of [psite]: TestFile, testNode, the rest result list, parseManual, firstName,
+     the body walks, parseCtors, parseGetSetMethods) is reached outside its guard.
+   Panics inside library code (go/types, packages.Load, text/template, gofmt) and in the parts of
+   the generators that are not transcribed (field matching of the mapper, the templates' data)
+   are NOT covered by this theorem: their absence is sampled by the correspondence run only. *)
 Theorem C18_always_a_deliberate_exit : forall sigma io i,
   input_wf i -> is_exit (fst (run sigma io i)).
 Proof. exact run_is_exit. Qed.
@@ -62,12 +76,14 @@ Theorem C18_always_a_deliberate_exit_decidable : forall sigma io i,
 Proof. exact run_is_exit_ok. Qed.
 Print Assumptions C18_always_a_deliberate_exit_decidable.
 
-Theorem C18_declared_before_use_is_well_founded : forall tops,
-  ordered tops = true -> embedding_wf tops.
+Theorem C18_declared_before_use_is_well_founded : forall fo tops,
+  ordered tops = true -> foreign_ok fo = true -> embedding_wf fo tops.
 Proof. exact ordered_wf. Qed.
 Print Assumptions C18_declared_before_use_is_well_founded.
 
-(* ... and a deliberate exit has status 0, 1 or 2 (and carries its diagnostic). *)
+(* TRIVIAL (a case split on the definition of exit_code, kept as a lemma): a deliberate exit has
+   status 0, 1 or 2.  "Terminates with exit code 0, 1 or 2" is carried by
+   C18_always_a_deliberate_exit, not by this. *)
 Theorem C18_exit_status_at_most_2 : forall d, exit_code d <= 2.
 Proof. exact exit_code_le_2. Qed.
 Print Assumptions C18_exit_status_at_most_2.
@@ -95,10 +111,20 @@ Print Assumptions C18_partial_write_is_a_prefix.
 
 (* K_ctor_self_embed: `type Node struct{ *Node; v int }` exhausts every fuel *)
 Theorem C18_refuted_K_ctor_self_embed :
-  (forall fuel, expand LNewEmbed fuel node_tops (TStar (TId "Node")) = Stop (Diverge LNewEmbed)) /\
-  fst (run id_order no_fault w_self_embed) = Diverge LNewEmbed /\ ~ embedding_wf node_tops.
+  (forall fuel, expand LNewEmbed fuel [] node_tops (TStar (TId "Node")) = Stop (Diverge LNewEmbed)) /\
+  fst (run id_order no_fault w_self_embed) = Diverge LNewEmbed /\ ~ embedding_wf [] node_tops.
 Proof. exact (conj self_embed_diverges (conj self_embed_run self_embed_not_wf)). Qed.
 Print Assumptions C18_refuted_K_ctor_self_embed.
+
+(* the same class through an instantiated generic type (`type Node[T any] struct{ *Node[T]; v T }`)
+   and through an imported package (`struct{ ext.Loop; id int }` with ext.Loop embedding *Loop):
+   the model diverges and the decidable guard rejects both inputs *)
+Theorem C18_refuted_K_ctor_self_embed_generic_and_imported :
+  fst (run id_order no_fault w_generic_self) = Diverge LNewEmbed /\
+  fst (run id_order no_fault w_foreign_loop) = Diverge LNewEmbed /\
+  input_ok w_generic_self = false /\ input_ok w_foreign_loop = false.
+Proof. exact generic_and_foreign_self_embed_diverge. Qed.
+Print Assumptions C18_refuted_K_ctor_self_embed_generic_and_imported.
 
 (* The panics K_map_unnamed_names, K_map_nil_body, K_map_accessor_arity and
    K_testfile_no_package_clause were repaired in /repo (b905249, 1e0ce7d, 1762519, 29dcb84): the
@@ -140,5 +166,5 @@ Example C18_example_outcomes :
   fst (run id_order no_fault (ex_input ["new"; "-type=Top,Nope"])) = Exit DNewNotExists /\
   fst (run id_order no_fault (ex_input ["new"; "-type=Top"; "-tagcase=weird"])) = Exit DFlagError.
 Proof. exact ex_runs. Qed.
-Example C18_example_files_only : files_only (i_extra (ex_input [])) = true /\ all_ok no_fault.
-Proof. split; [reflexivity|intros k; reflexivity]. Qed.
+Example C18_example_state_ok : state_ok (ex_input ["new"; "-type=Top,Mid"]) = true /\ all_ok no_fault /\ selects id_order.
+Proof. split; [reflexivity|split; [intros k; reflexivity|exact selects_id]]. Qed.
